@@ -47,7 +47,19 @@ def main() -> int:
         pkg = Package()
         from .checks import grlib
         grlib.set_package(pkg)
-        mod.run(run, pkg)
+        try:
+            mod.run(run, pkg)
+        except AnalysisError as e:
+            # the property-specific rules could not follow the code (exit 2 at least); the shared syntax-tree rules below do not
+            # depend on them and still look at every function of the property's anchor files
+            run.error(str(e))
+            _add_anchor_functions(run, pkg)
+        except Exception as e:  # noqa
+            tb = traceback.format_exc().strip().splitlines()
+            run.error(f"checker crashed: {type(e).__name__}: {e} @ {tb[-3].strip() if len(tb) >= 3 else ''}")
+            if os.environ.get("VERIF_DEBUG"):
+                traceback.print_exc()
+            _add_anchor_functions(run, pkg)
         from .vg import show as _show
         for t, v in list(grlib.INLINE_IMAGES.items()):
             if v[0] == "bad":
@@ -75,6 +87,21 @@ def main() -> int:
         if os.environ.get("VERIF_DEBUG"):
             traceback.print_exc()
     return run.finish()
+
+
+def _add_anchor_functions(run: Run, pkg: Package) -> None:
+    try:
+        here = os.path.dirname(os.path.dirname(os.path.abspath(__file__)))
+        files = set()
+        for ln in open(os.path.join(here, "properties.jsonl"), "r", encoding="utf-8"):
+            d = json.loads(ln)
+            if d.get("id") == run.pid:
+                files = set(d.get("anchors", {}).get("files", []))
+        for fi in pkg.all_functions():
+            if fi.relpath in files:
+                run.functions.add(fi.qual)
+    except Exception:  # noqa
+        pass
 
 
 def selftest_stage(run: Run, pid: str) -> None:
